@@ -46,6 +46,9 @@ CHECKS = {
  'C14': dict(tech='TLA+ gadget relations (ApiSemantics.tla) + generator (ProgGen.tla) + exhaustive constraint solving (ConstraintSat.tla) on rows exported from the real gadgets over F_47',
              text='Every call of cmp.IsLess/IsLessOrEqual, selector.Mux (2-5 inputs), Map, Decoder and bitslice.Partition with every operand-kind pattern is compiled by both builders over F_47; the honest solve must give the exact result inside the domain and fail outside it for every assignment, and every satisfying assignment of every wire (all hinted indicators / bits) must obey the documented relation; TLC enumerates a seeded subset itself with matching state counts.',
              note='The bounded comparator and the 8/32/64-bit word gadgets (wider than the toy field, built on the log-derivative argument) are not covered by this generator.', ref='6 C14'),
+ 'C15': dict(tech='TLA+ transcription of the padding / block-count rules of the hash gadgets (HashFraming.tla) with TLC checking that the replayed length classes cover every framing boundary; enumerated framing cases replayed on the real gadgets against the native implementations',
+             text='TLC checks BoundaryCover and BlocksMinimal for SHA-256, RIPEMD-160, SHA3-256/384/512, Keccak-256/512 and enumerates family x boundary length x 7 write chunkings, variable-length sums (length x declared maximum x minimal-length option), MiMC / Poseidon2 by element count, chunking and state export/import point, Merkle proofs by tree size and leaf, Fiat-Shamir transcripts; each case must reproduce the native digest on the real gadget (test engine; a sample through both builders and solvers) and reject a wrong digest, the digest of a shorter prefix, a wrong leaf index or an altered sibling.',
+             note='Message contents are seeded pseudo-random bytes; lengths up to two blocks + 1.', ref='6 C15 / 11.2'),
  'C18': dict(tech='TLA+ model of contribution chains (MpcSetup.tla) enumerated by TLC; every transcript replayed on the real mpcsetup package through serialization, verdicts and extracted keys compared',
              text='TLC enumerates, for both phases, circuits with/without commitment and 1-3 contributions, the transcripts a verifier may be handed: honest, one serialized element altered (every component x first/mid/last x double/negation/infinity, challenge bit flip), contributions swapped, dropped, duplicated, spliced from a second honest chain, phase 2 checked against another phase-1 output or another circuit; the verdict is "every contribution unaltered and extending its predecessor". Each transcript goes through WriteTo / byte edit / ReadFrom / VerifyPhase1|2 of the real package on the curves; accepted phase-2 transcripts must give keys that prove, verify and reject other public inputs.',
              note='Knowledge soundness of the update proofs is an ideal rule; replacements are other valid group elements, not arbitrary bytes; small domains only.', ref='6 C18 / 11.2'),
